@@ -99,12 +99,12 @@ def emit_configs(ctx):
         out.append(("C", dict(min=10, max=700, extra=boundary_totals(fl, [1400], rng, 20, 1700),
                               buffers=[0, 3], fees=[0, 2], caps=[1, 3, 29], answers=[0, 1, 2])))
     else:
-        for lo in range(0, 2601, 330):
-            out.append(("A%d" % lo, dict(min=1, max=1000, lo=lo, hi=min(lo + 329, 2600),
+        for lo in range(0, 2601, 260):
+            out.append(("A%d" % lo, dict(min=1, max=1000, lo=lo, hi=min(lo + 259, 2600),
                                          buffers=[0, 1, 2, 3], fees=[0, 1, 3], caps=[1, 2, 3, 29],
                                          answers=[0, 1, 2, 3])))
-        for lo in range(0, 261, 90):
-            out.append(("B%d" % lo, dict(min=1, max=5, lo=lo, hi=min(lo + 89, 260), buffers=[0, 1], fees=[0, 1, 3],
+        for lo in range(0, 261, 45):
+            out.append(("B%d" % lo, dict(min=1, max=5, lo=lo, hi=min(lo + 44, 260), buffers=[0, 1], fees=[0, 1, 3],
                                          caps=[13, 14, 15, 28, 29, 64], answers=[0, 1, 2, 3, 4])))
         out.append(("C", dict(min=10, max=700, lo=0, hi=1700, buffers=[0, 3], fees=[0, 2], caps=[1, 3, 29],
                               answers=[0, 1, 2])))
